@@ -34,6 +34,36 @@ Ltac proj_simpl :=
        send_dg recv_dg send_buf send_eom recv_buf bytes_read total_msg in_msg before_secret peer_addr
        upd_send upd_recv upd_sbuf upd_rbuf upd_enc f_flag f_body] in *.
 
+(* two digest states that will always yield the same digest: either both still
+   running over identical input, or both frozen to the same value *)
+Definition dsim (d1 d2 : dstate) : Prop :=
+  (dg_final d1 = None /\ d1 = d2) \/
+  (dg_final d1 <> None /\ dg_final d2 <> None /\ dg_value d1 = dg_value d2).
+
+Lemma dsim_refl d : dsim d d.
+Proof. unfold dsim. destruct (dg_final d) eqn:E; [right|left]; repeat split; congruence. Qed.
+Lemma dsim_sym d1 d2 : dsim d1 d2 -> dsim d2 d1.
+Proof.
+  intros [[H1 H2]|[H1 [H2 H3]]]; [left; subst; split; [assumption|reflexivity]|right; repeat split; congruence].
+Qed.
+Lemma dsim_value d1 d2 : dsim d1 d2 -> dg_value d1 = dg_value d2.
+Proof. intros [[_ ->]|[_ [_ H]]]; [reflexivity|exact H]. Qed.
+Lemma dsim_write d1 d2 bs : dsim d1 d2 -> dsim (dg_write d1 bs) (dg_write d2 bs).
+Proof.
+  intros [[H1 H2]|[H1 [H2 H3]]].
+  - subst d2. apply dsim_refl.
+  - rewrite !dg_write_final by assumption. right. repeat split; assumption.
+Qed.
+Lemma dsim_finalize d1 d2 : dsim d1 d2 -> dsim (dg_finalize d1) (dg_finalize d2).
+Proof.
+  intro H. right. split; [discriminate|]. split; [discriminate|].
+  rewrite !dg_value_finalize. apply dsim_value. exact H.
+Qed.
+Lemma dsim_fin_dg b d1 d2 : dsim d1 d2 -> dsim (fin_dg b d1) (fin_dg b d2).
+Proof. destruct b; cbn [fin_dg]; [auto|apply dsim_finalize]. Qed.
+Lemma dg_value_fin_dg b d : dg_value (fin_dg b d) = dg_value d.
+Proof. destruct b; reflexivity. Qed.
+
 (* ---- the pairing invariant ------------------------------------------- *)
 (* A's sending half mirrors B's receiving half. *)
 Record paired (A B : stream) : Prop := {
@@ -43,8 +73,8 @@ Record paired (A B : stream) : Prop := {
   p_iv : 0 < enc_ctr A -> enc_iv A = dec_iv B;
   p_ivlen : lenN (enc_iv A) = 16;
   p_fin : fin_send_aad A = fin_recv_aad B;
-  p_sdg : send_dg A = recv_dg B;
-  p_rdg : recv_dg A = send_dg B
+  p_sdg : dsim (send_dg A) (recv_dg B);
+  p_rdg : dsim (recv_dg A) (send_dg B)
 }.
 Definition duplex (A B : stream) : Prop := paired A B /\ paired B A.
 
@@ -114,7 +144,7 @@ Proof.
        (fin_dg (fin_recv_aad B) (send_dg B)) (fin_dg (fin_recv_aad B) (recv_dg B)), SOk d)).
   { intros div ->. unfold decrypt_with. rewrite <- Hc.
     assert (Ha : aad_recv B hdr = aad_send A hdr).
-    { unfold aad_recv, aad_send. rewrite <- Hf, <- Hsd, <- Hrd. reflexivity. }
+    { unfold aad_recv, aad_send. rewrite <- Hf, (dsim_value _ _ Hsd), (dsim_value _ _ Hrd). reflexivity. }
     rewrite Ha, open_seal. reflexivity. }
   unfold decrypt. rewrite <- Hc.
   destruct (enc_ctr A =? 0) eqn:E0.
@@ -143,7 +173,8 @@ Proof.
     rewrite recv_plain; [|rewrite <- Hact; exact Hna|exact Emax|exact Hfl].
     eexists. split; [reflexivity|].
     unfold note_recv.
-    split; constructor; proj_simpl; try assumption; try congruence. }
+    split; constructor; proj_simpl; try assumption; try congruence;
+      try (apply dsim_write; assumption); apply dsim_sym, dsim_write, dsim_sym; assumption. }
   destruct (key A) as [k|] eqn:EkA.
   - destruct (encrypted A) eqn:EeA.
     + destruct (enc_ctr A =? CounterGuard) eqn:Eg; [discriminate|].
@@ -163,10 +194,10 @@ Proof.
       eexists. split; [reflexivity|].
       unfold note_recv, fin_dg.
       split; constructor; proj_simpl; try assumption; try congruence; try lia.
-      * rewrite <- Hf, <- Hsd. destruct (fin_send_aad A); reflexivity.
-      * rewrite <- Hf, <- Hrd. destruct (fin_send_aad A); reflexivity.
-      * rewrite <- Hf, <- Hrd. destruct (fin_send_aad A); reflexivity.
-      * rewrite <- Hf, <- Hsd. destruct (fin_send_aad A); reflexivity.
+      * rewrite <- Hf. apply dsim_write, dsim_fin_dg. exact Hsd.
+      * rewrite <- Hf. apply dsim_fin_dg. exact Hrd.
+      * rewrite <- Hf. apply dsim_sym, dsim_fin_dg, dsim_sym. exact Hsd'.
+      * rewrite <- Hf. apply dsim_sym, dsim_write, dsim_fin_dg, dsim_sym. exact Hrd'.
     + apply Hplain; [unfold enc_active; rewrite EkA, EeA; reflexivity|exact Hs].
   - apply Hplain; [unfold enc_active; rewrite EkA; reflexivity|exact Hs].
 Qed.
